@@ -152,7 +152,21 @@ macro_rules! p_slice {
             let bs: Vec<<Fr as AdFrame>::SF> = (0..len as u64).map(|i| <Fr as AdFrame>::sleaf(16 * 3, i)).collect();
             let amp = <Fr as AdFrame>::fpc(3);
             let mut samples: Vec<$S> = vec![<$S as Sample>::EQUILIBRIUM; len * $N + 1];
-            Box::new(move |args: &Args| match args.sel % 10 {
+            Box::new(move |args: &Args| match args.sel % 12 {
+                10 => {
+                    let r: Option<&[Fr]> = dasp_slice::from_sample_slice(&samples[..len * $N]);
+                    bb(r.map(|x| x.len()));
+                    let r: Option<&mut [Fr]> = dasp_slice::from_sample_slice_mut(&mut samples[..len * $N]);
+                    bb(r.map(|x| x.len()));
+                    let r: Option<&[Fr]> = dasp_slice::from_sample_slice(&samples[..]);
+                    bb(r.is_none());
+                }
+                11 => {
+                    let s: &[$S] = dasp_slice::from_frame_slice(&a[..]);
+                    bb(s.len());
+                    let s: &mut [$S] = dasp_slice::from_frame_slice_mut(&mut a[..]);
+                    bb(s.len());
+                }
                 0 => {
                     let s: &[$S] = dasp_slice::to_sample_slice(&a[..]);
                     bb(s.len());
